@@ -22,3 +22,27 @@ func VerifMsg(m *ProducerMessage) VerifMsgInfo {
 	return VerifMsgInfo{Flags: int(m.flags), Retries: m.retries, HasSeq: m.hasSequence, Seq: m.sequenceNumber, Epoch: m.producerEpoch,
 		IsSyn: m.flags&syn != 0, IsFin: m.flags&fin != 0, Shutdown: m.flags&shutdown != 0}
 }
+
+// VerifRecordingPartitioner records how often it was consulted and what it chose.
+type VerifRecordingPartitioner struct {
+	Calls int
+	Last  int32
+	NumPartitionsSeen []int32
+}
+
+func (r *VerifRecordingPartitioner) Partition(m *ProducerMessage, n int32) (int32, error) {
+	r.Calls++
+	r.NumPartitionsSeen = append(r.NumPartitionsSeen, n)
+	r.Last = int32((r.Calls * 7) % int(n))
+	return r.Last, nil
+}
+func (r *VerifRecordingPartitioner) RequiresConsistency() bool { return false }
+
+// VerifCustomFallbackPartitioner builds NewCustomPartitioner(WithCustomFallbackPartitioner(fb))
+// where fb is a hash partitioner whose own keyless fallback is rec: the option
+// takes an unexported type, so it can only be built from inside the package.
+func VerifCustomFallbackPartitioner(rec *VerifRecordingPartitioner) Partitioner {
+	fb := NewHashPartitioner("fallback").(*hashPartitioner)
+	fb.random = rec
+	return NewCustomPartitioner(WithCustomFallbackPartitioner(fb))("t")
+}
